@@ -227,6 +227,12 @@ def run(tier: str) -> int:
                     rep.stats.nontrivial.add(r.cell.key)
     finally:
         wd.close()
+    # (c) full-width integer kernels (division / remainder code paths that went through float64)
+    from . import c09_kernels
+    kern = c09_kernels.run_kernels(rep, tier)
+    rep.stats.units |= {"cohdl._core._op.truncdiv/rem/floordiv/mod (int operands)", "Signed/Unsigned/Integer _cohdl_truncdiv_/_cohdl_rem_/__mod__ kernels incl. module-level helpers (AST -> QF_BVFP)"}
+    rep.assumptions += ["kernels: operands in the 64-bit signed range (Unsigned: non-negative), divisor != 0; int / int = correctly rounded exact quotient (binary128 then binary64), int(float) truncates; "
+                        "the role of a kernel (truncating quotient / remainder / floor quotient / modulus) is the one its function names, checked on 7 small operand pairs"]
     rep.stats.units |= {"cohdl._core._unsigned.Unsigned (add/sub/__mul__/__rmul__/_cohdl_truncdiv_/__mod__/_cohdl_rem_/shifts/compare)",
                         "cohdl._core._signed.Signed (same)", "cohdl._core._bit_vector.BitVector (and/or/xor/invert/concat/index/slice/views)",
                         "cohdl._core._bit.Bit", "backend format_literal (folding path)"}
@@ -240,6 +246,7 @@ def run(tier: str) -> int:
         "crosshair_confirmed": confirmed,
         "crosshair_cpu_s": round(ch_cpu, 1),
         "fold_cells": fold_counts,
+        "full_width_kernels": kern,
         "distinct_nontrivial": len(rep.stats.nontrivial),
         "evaluations": len(funcs) + sum(fold_counts.values()),
         "rule": "one CrossHair condition = one operator x operand-type pair x width pair, all operand values symbolic; one fold cell = one constant expression compiled through the whole pipeline",
